@@ -569,7 +569,8 @@ VARIANTS = [
     M("cache-key-narrowed", "model.py", "    @cache(num_args=2)\n    def table_string(", "    @cache(num_args=1)\n    def table_string(", "C03.R3"),
     M("cache-key-no-separator", "numbers_cache.py", 'key = ".".join([str(args[x]) for x in range(num_args)])', 'key = "".join([str(args[x]) for x in range(num_args)])', "C03.R3"),
     M("cache-on-merge-writer", "model.py", "    def recalculate_merged_cells(self, table_id: int) -> None:", "    @cache()\n    def recalculate_merged_cells(self, table_id: int) -> None:", "C03.R3"),
-    M("cache-class-level", "numbers_cache.py", "class Cacheable:\n", "class Cacheable:\n    _shared = {}\n", "C03.R3"),
+    # an unused class attribute changes nothing: the structural rule alarms, the equivalence proof discharges it
+    T("unused-class-attribute", "numbers_cache.py", "class Cacheable:\n", "class Cacheable:\n    _shared = {}\n"),
     M("model-update-missing", "document.py", "        self.num_cols -= num_cols\n        self._model.number_of_columns(self._table_id, self.num_cols)\n", "        self.num_cols -= num_cols\n", "C03.R1"),
     M("save-mutates-grid", "model.py", "        table_model.number_of_rows = len(data)\n        table_model.number_of_columns = len(data[0])\n",
       "        table_model.number_of_rows = len(data)\n        table_model.number_of_columns = len(data[0])\n        data.append([])\n", "C03.R4"),
